@@ -67,7 +67,7 @@ func init() {
 	rv("K5 destination.NewSpool .(*nsqd.DiskQueue)", "NewDiskQueue always returns a *DiskQueue", "NewDiskQueue returns *DiskQueue")
 	// K6
 	rv("K6 destination.NewSpool make(chan) size param bufSize", "spool buffers exist only for destinations with spool=true, for which destination.New validates spoolBufSize >= 0", "destination.New validates spool settings")
-	rv("K6 (*nsqd.DiskQueue).readOne make([]) size var msgSize", "record lengths are read back from segment files below the persisted write position, which is only advanced after the data was fsynced (C08.R1); they are the lengths writeOne wrote", "")
+	rv("K6 (*nsqd.DiskQueue).readOne make([]) size integer decoded from a stream", "record lengths are read back from segment files below the persisted write position, which is only advanced after the data was fsynced (C08.R1); they are the lengths writeOne wrote", "")
 	// K7
 	rv("K7 (persister.WhisperSchemas).Match (*regexp.Regexp).MatchString on *persister.Schema.Pattern", "ReadWhisperSchemas returns an error when the pattern is empty or does not compile, before the schema is appended", "")
 	rv("K7 (persister.WhisperSchemas).String (*regexp.Regexp).String on *persister.Schema.Pattern", "see WhisperSchemas.Match", "")
